@@ -124,6 +124,44 @@ class TokModel:
                 out.append(("rel", op, P.strip(x), P.strip(y), (b, lab)))
         return out
 
+    def _make_site(self, bi, line, kind_t, prob_t, fact_block):
+        fn = self.fn
+        st = Site()
+        st.block = bi
+        st.line = line
+        st.kind = kind_t[1].rsplit("::", 1)[-1]
+        st.kind_ops = kind_t[2]
+        st.pair_variant = None
+        st.ranks = []
+        st.rank_terms = []
+        st.card_pair = None
+        ops = list(kind_t[2])
+        if ops and ops[0][0] == "agg" and ops[0][1].startswith("adt:" + RANK_PAIR + "::"):
+            st.pair_variant = ops[0][1].rsplit("::", 1)[-1]
+            rts = list(ops[0][2]) + ops[1:]
+            for r in rts:
+                st.rank_terms.append(r)
+                st.ranks.append(self.rank_pos(r))
+        elif st.kind == "SingleCardPair":
+            inner = parsed_ok(ops[0], self.pair_parser)
+            st.card_pair = slice_of(inner) if inner is not None else None
+            st.card_pair_term = ops[0]
+        else:
+            raise U("tokmodel", f"unexpected kind payload {P.show(kind_t)[:80]}", fn)
+        pt = P.strip(prob_t)
+        st.prob_from = None
+        if pt[0] == "call" and pt[1] in self.F.fns and len(pt[2]) == 1:
+            self.prob_fn = pt[1]
+            sl = slice_of(pt[2][0])
+            if sl and sl[0] == ("param", 1) and sl[2] is None:
+                st.prob_from = sl[1]
+        st.facts = self._facts(bi)
+        if fact_block != bi:
+            seen = {str(f[:4]) for f in st.facts}
+            st.facts += [f for f in self._facts(fact_block) if str(f[:4]) not in seen]
+        st.regexes = [f[1] for f in st.facts if f[0] == "re"]
+        return st
+
     def _sites(self):
         fn, pr = self.fn, self.pr
         sites = []
@@ -143,39 +181,24 @@ class TokModel:
                     raise U("tokmodel", f"Ok payload is not a token construction: {P.show(tok)[:80]}", fn)
                 if not (kind_t[0] == "agg" and kind_t[1].startswith("adt:" + KIND + "::")):
                     raise U("tokmodel", f"token kind is not constructed in place: {P.show(kind_t)[:80]}", fn)
-                st = Site()
-                st.block = bi
-                st.line = s["line"]
-                st.kind = kind_t[1].rsplit("::", 1)[-1]
-                st.kind_ops = kind_t[2]
-                st.pair_variant = None
-                st.ranks = []       # positions of the ranks in constructor order
-                st.rank_terms = []
-                st.card_pair = None
-                ops = list(kind_t[2])
-                if ops and ops[0][0] == "agg" and ops[0][1].startswith("adt:" + RANK_PAIR + "::"):
-                    st.pair_variant = ops[0][1].rsplit("::", 1)[-1]
-                    rts = list(ops[0][2]) + ops[1:]
-                    for r in rts:
-                        st.rank_terms.append(r)
-                        st.ranks.append(self.rank_pos(r))
-                elif st.kind == "SingleCardPair":
-                    inner = parsed_ok(ops[0], self.pair_parser)
-                    st.card_pair = slice_of(inner) if inner is not None else None
-                    st.card_pair_term = ops[0]
-                else:
-                    raise U("tokmodel", f"unexpected kind payload {P.show(kind_t)[:80]}", fn)
-                # probability
-                pt = P.strip(prob_t)
-                st.prob_from = None
-                if pt[0] == "call" and pt[1] in self.F.fns and len(pt[2]) == 1:
-                    self.prob_fn = pt[1]
-                    sl = slice_of(pt[2][0])
-                    if sl and sl[0] == ("param", 1) and sl[2] is None:
-                        st.prob_from = sl[1]
-                st.facts = self._facts(bi)
-                st.regexes = [f[1] for f in st.facts if f[0] == "re"]
-                sites.append(st)
+                # the rank pair may be chosen by an if/else into a local before one shared return:
+                # one virtual site per alternative, with the facts of the block that builds it
+                ops0 = kind_t[2][0] if kind_t[2] else None
+                variants = [(kind_t, bi)]
+                if ops0 is not None and ops0[0] == "phi":
+                    variants = []
+                    for l_, ds_ in pr.defs.items():
+                        if pr.local(l_) == ops0:
+                            for (db, si_, k_, payload_) in ds_:
+                                if k_ == "rv":
+                                    at = pr.rvalue(payload_)
+                                    if at[0] == "agg" and at[1].startswith("adt:" + RANK_PAIR + "::"):
+                                        variants.append((("agg", kind_t[1], (at,) + tuple(kind_t[2][1:])), db))
+                    if not variants:
+                        raise U("tokmodel", f"token kind payload is a merge of values that are not built in place: {P.show(ops0)[:80]}", fn)
+                for (kind_v, fact_block) in variants:
+                    st = self._make_site(bi, s["line"], kind_v, prob_t, fact_block)
+                    sites.append(st)
         if len(sites) < 7:
             raise U("tokmodel", f"only {len(sites)} Ok(..) sites in the token parser", fn)
         return sites
